@@ -198,8 +198,9 @@ func newExec(t *testing.T) func([]string) string {
 			out.Signature = nil
 			lowS := "-"
 			if c.Curve() == cert.Curve_P256 {
-				ok, err := p256.IsNormalized(sig)
-				lowS = hlib.B(err == nil && ok)
+				// decided here, not by the code under test: S <= N/2 in a well-formed DER signature
+				low, wf := cl.LowS(sig)
+				lowS = hlib.B(wf && low)
 			}
 			pool := cert.NewCAPool()
 			if signer != nil {
@@ -222,6 +223,50 @@ func newExec(t *testing.T) func([]string) string {
 				ak = "err:other"
 			}
 			return fmt.Sprintf("ok %s %s %s -", out.Desc(), lowS, ak)
+		case "norm":
+			if len(a) != 2 {
+				return "bad-op"
+			}
+			sig, err := hlib.UnHex(a[1])
+			if err != nil {
+				return "bad-op"
+			}
+			n := "err"
+			if ok, err := p256.IsNormalized(sig); err == nil {
+				n = hlib.B(ok)
+			}
+			oh := func(b []byte, err error) string {
+				if err != nil {
+					return "err"
+				}
+				return hlib.Hex(b)
+			}
+			return fmt.Sprintf("%s %s %s", n, oh(p256.Normalize(sig)), oh(p256.Swap(sig)))
+		case "sws":
+			// sws <ver> <sig>: a self-signed P-256 CA issued through SignWith by a signer that answers <sig>
+			if len(a) != 3 {
+				return "bad-op"
+			}
+			scripted, err := hlib.UnHex(a[2])
+			if err != nil {
+				return "bad-op"
+			}
+			pub := make([]byte, 65)
+			pub[0] = 4
+			tbs := &cert.TBSCertificate{Version: cert.Version(hlib.Atoi(a[1])), Name: "ca", IsCA: true, Curve: cert.Curve_P256, PublicKey: pub,
+				NotBefore: time.Unix(cl.Epoch-3600, 0), NotAfter: time.Unix(cl.Epoch+3600, 0)}
+			c, err := tbs.SignWith(nil, cert.Curve_P256, func([]byte) ([]byte, error) { return scripted, nil })
+			if err != nil {
+				if errors.Is(err, cert.ErrEmptySignature) {
+					return "err:empty-signature"
+				}
+				if k := signKind(err); !strings.HasPrefix(k, "err:other:") {
+					return k
+				}
+				return "err:normalize"
+			}
+			low, wf := cl.LowS(c.Signature())
+			return fmt.Sprintf("ok %s %s", hlib.Hex(c.Signature()), hlib.B(wf && low))
 		}
 		return "bad-op"
 	}
@@ -268,6 +313,19 @@ func newSigner(r *hlib.Rand) *signer {
 }
 
 func gen(r *hlib.Rand, n int, tier, profile string, emit func(string, ...any)) {
+	// cert/p256 at the low-S boundary, directly and through SignWith with a signer that answers such signatures
+	for _, sig := range cl.BoundarySigs(r) {
+		emit("norm %s", hlib.Hex(sig))
+		emit("sws %d %s", hlib.Pick(r, 1, 2), hlib.Hex(sig))
+	}
+	emit("sws 2 -")
+	emit("sws 1 00")
+	rk := cl.NewSignKey(r, cert.Curve_P256)
+	for i := 0; i < 6; i++ {
+		sig := rk.SignRaw(r.Bytes(16))
+		emit("norm %s", hlib.Hex(sig))
+		emit("sws %d %s", hlib.Pick(r, 1, 2), hlib.Hex(sig))
+	}
 	for i := 0; i < n; {
 		s := newSigner(r)
 		for j, k := 0, hlib.Pick(r, 2, 4, 8); j < k && i < n; j++ {
